@@ -11,6 +11,8 @@
  */
 #include "mpi_interp.hpp"
 
+#include <simgrid/s4u/Actor.hpp>
+
 using namespace mpii;
 
 static constexpr size_t GUARD = mpii::BUF_GUARD;
@@ -155,7 +157,7 @@ MPI_OPERATION(win_read)
 /* {"op":"rma","win":name,"type":datatype name,"seq":[step...]}   (per-rank sequences with {"@":[seq0, seq1, ...]})
  * step = {"k":"fence","assert":["noprecede"|"nosucceed"|"nostore"|"noput"...]} | {"k":"lock","rank":t,"shared":bool} | {"k":"unlock","rank":t} | {"k":"lock_all"} |
  *        {"k":"unlock_all"} | {"k":"flush","rank":t} | {"k":"flush_all"} | {"k":"flush_local","rank":t} |
- *        {"k":"flush_local_all"} | {"k":"barrier"} |
+ *        {"k":"flush_local_all"} | {"k":"barrier"} | {"k":"sleep","d":simulated seconds} |
  *        {"k":"put","id":n,"data":hex,"t":target,"disp":d}                       count = bytes(data)/size(type)
  *        {"k":"put","id":n,"pat":seed,"count":c,"t":target,"disp":d}             a big patterned origin buffer (see pattern())
  *        {"k":"get","id":n,"count":c,"t":target,"disp":d}                        result in buffer r<id>
@@ -210,6 +212,8 @@ MPI_OPERATION(rma)
       rc = MPI_Win_flush_local_all(w);
     else if (k == "barrier")
       rc = MPI_Barrier(R.comm(a));
+    else if (k == "sleep") // simulated delay: shifts this origin's calls against the other origins'
+      simgrid::s4u::this_actor::sleep_for(s.at("d").get<double>());
     else if (k == "put" || k == "acc") {
       auto data        = s.contains("pat") ? pattern(s.at("pat").get<unsigned long long>(), s.at("count").get<size_t>(), tsize)
                                            : from_hex(s.at("data").get<std::string>());
